@@ -663,14 +663,28 @@ func (r *run) checkC12(end, msg string) error {
 	if r.cfg.Ammo >= 0 && w.AcquireN >= r.cfg.Ammo {
 		cut = true // ammo ran out
 	}
+	need := len(off)
 	if !r.cfg.PerInst && !r.cfg.RPS.unknown() {
 		toks, _ := r.cfg.RPS.tokens()
 		if len(w.TokenLog) >= len(toks) {
-			cut = true // shared RPS profile finished
+			// the shared RPS profile finished: that ends instance start, but not before the last of its
+			// tokens was drawn - startup tokens due strictly before that moment must have become instances
+			last := w.TokenLog[len(w.TokenLog)-1].DrawAt
+			for _, tk := range w.TokenLog {
+				if tk.DrawAt.After(last) {
+					last = tk.DrawAt
+				}
+			}
+			need = 0
+			for _, o := range off {
+				if r.t0.Add(o).Before(last) {
+					need++
+				}
+			}
 		}
 	}
-	if !cut && started != len(off) {
-		return fmt.Errorf("MISSING: %d instances started, startup profile has %d tokens and nothing cut the start short", started, len(off))
+	if !cut && started < need {
+		return fmt.Errorf("MISSING: %d instances started, %d startup tokens were due before anything could end the start (profile has %d)", started, need, len(off))
 	}
 	// an instance, once started, keeps firing until its profile/ammo is exhausted or cancel
 	if r.runErr == nil && !r.cancelled && r.cfg.Fault.Kind == "" && !r.cfg.RPS.unknown() {
